@@ -222,7 +222,7 @@ pub fn run(ctx: &Ctx) -> Report {
     });
     report.absorb(r);
     // stage 2: random over all bases, up to two irregularities
-    let cases = ctx.tier.pick(30_000, 1_500_000);
+    let cases = ctx.tier.pick(150_000, 1_500_000);
     let r = run_tapes(ctx, "corpus-random", cases, 24, |tape, stats| {
         let mut t = Tape::new(tape);
         let b = t.below(bases_ref.len());
